@@ -117,8 +117,11 @@ def evaluate(chk, cases, tag='cases', shard=150, hashseed=None):
     return terms, obs, sorted(failing + crashed)
 
 
-def shrink(chk, case, rounds=10):
-    """delta-debug a failing case: drop calls, then edges (keeping the edge list non-empty)"""
+def shrink(chk, case, rounds=10, budget=90.0):
+    """delta-debug a failing case: drop calls, then edges (keeping the edge list non-empty); bounded in time - a large
+    failing graph is reported as it is rather than shrunk for minutes"""
+    import time
+    t0 = time.time()
     cur = case
     # 1. find a single failing call if possible
     for _ in range(rounds):
@@ -130,10 +133,16 @@ def shrink(chk, case, rounds=10):
         if not f:
             break
         cur = half[f[0]]
-    # 2. drop edges one at a time
-    for _ in range(rounds):
+    # 2. drop edges: one at a time for small graphs, in chunks for large ones
+    for _ in range(rounds * 3):
+        if time.time() - t0 > budget:
+            break
         es = cur['edges']
-        cands = [dict(cur, edges=es[:i] + es[i + 1:]) for i in range(len(es)) if len(es) > 1]
+        if len(es) > 24:
+            k = max(1, len(es) // 8)
+            cands = [dict(cur, edges=es[:i] + es[i + k:]) for i in range(0, len(es), k) if len(es) - k >= 1]
+        else:
+            cands = [dict(cur, edges=es[:i] + es[i + 1:]) for i in range(len(es)) if len(es) > 1]
         if not cands:
             break
         _, _, f = evaluate(chk, cands, tag='shrink')
